@@ -437,6 +437,20 @@ def path_values(g, func, target_nodes, exprs, labels=None):
     return out
 
 
+def inline_locals(func, expr, depth=0):
+    """A copy of expr with every single-definition local replaced by its definition (recursively)."""
+    import copy
+
+    class T(ast.NodeTransformer):
+        def visit_Name(self, node):
+            if isinstance(node.ctx, ast.Load) and node.id not in func.params + func.kwonly and depth < 6:
+                d = single_def(func, node.id)
+                if isinstance(d, ast.expr) and len(local_defs(func, node.id)) == 1:
+                    return inline_locals(func, d, depth + 1)
+            return node
+    return T().visit(copy.deepcopy(expr))
+
+
 def argn(call, name, pos=None):
     """The argument of ``call`` for parameter ``name``: by keyword, else at position ``pos``."""
     for k in call.keywords:
